@@ -40,6 +40,17 @@ def len0(value):
 
 def shape(value):
     return getattr(value, 'shape', ())
+
+
+def _like(value, items):
+    """
+    a list/tuple of the same type as value, holding items. A namedtuple is constructed from separate fields
+    
+    >>> from collections import namedtuple
+    >>> P = namedtuple('P', ['x', 'y'])
+    >>> assert _like(P(1,2), [3,4]) == P(3,4) and _like((1,2), [3,4]) == (3,4) and _like([1,2], (3,4)) == [3,4]
+    """
+    return type(value)(*items) if hasattr(value, '_fields') else type(value)(items)
  
 
 def _item_by_key(value, key, keys, i = None):
@@ -76,7 +87,7 @@ def _item_by_i(value, i, n):
         if len(value) == n:
             return value[i]
         else:
-            return type(value)([_item_by_i(v, i, n) for v in value])
+            return _like(value, [_item_by_i(v, i, n) for v in value])
     elif is_array(value):
         if len(value.shape) == 2 and value.shape[-1] == n:
             return value.T[i]
@@ -235,17 +246,15 @@ class loops(wrapper):
         elif isinstance(arg, self.types) and not isinstance(arg, dict):
             n = len(arg)
             res = [self._wrapped(arg[i], tuple(_item_by_i(a,i,n) for a in args), {k: _item_by_i(v,i,n) for k, v in kwargs.items()}) for i in range(n)]                            
-            return type(arg)(res)
+            return _like(arg, res)
         else:
             return self.function(arg, *args, **kwargs)
 
 
 
 def _T(arg):
-    if isinstance(arg, tuple):
-        return type(arg)([_T(a) for a in arg])
-    elif isinstance(arg, list):
-        return type(arg)([_T(a) for a in arg])
+    if isinstance(arg, (tuple, list)):
+        return _like(arg, [_T(a) for a in arg])
     elif isinstance(arg, dict):
         return type(arg)({k :_T(a) for k,a in arg.items()})
     else:
@@ -255,7 +264,7 @@ _dtype_ints = (np.dtype(np.int32), np.dtype(np.int64), np.dtype(np.int16))
 
 def _int2float(a):
     if isinstance(a, (list, tuple)):
-        return type(a)([_int2float(v) for v in a])
+        return _like(a, [_int2float(v) for v in a])
     elif isinstance(a, dict):
         return type(a)({k : _int2float(v) for k,v in a.items()})
     if (is_series(a) or is_array(a)) and a.dtype in _dtype_ints:
@@ -273,7 +282,7 @@ def _int2float(a):
 
 def _values(a):
     if isinstance(a, (list, tuple)):
-        return type(a)([_values(v) for v in a])
+        return _like(a, [_values(v) for v in a])
     elif isinstance(a, dict):
         return type(a)({k : _values(v) for k,v in a.items()})
     if is_series(a):
